@@ -33,6 +33,8 @@ def render(run) -> str:
     o.append(f"PARENT {run['parent']}")
     o.append(f"PROBES {run['probes']}")
     o.append(f"SCRUB {run['scrub']}")
+    if run.get('connect'):
+        o.append('CONNECT 1')
     if run.get('slowlog'):
         o.append(f"SLOWLOG {run['slowlog']}")
     for t in run['tasks']:
@@ -193,6 +195,7 @@ def gen_routing_run(rng: Rng, mb, rid, sweep=False):
             if s[0] == 1 and s[1] == mci['claim']:
                 s[3] = 1
     run['tasks'] = tasks
+    run['connect'] = 1 if rng.chance(35) else 0
     total_ops = sum(len(t['ops']) for t in tasks)
     est = 40 * total_ops + 50
     random_sched(rng, run, est)
@@ -324,6 +327,7 @@ def gen_c04_run(rng: Rng, mb, rid, faulty):
     for e in oh:
         scripts.append([0, e['idx'], reply_value(rng, e), 1, []])
     run['scripts'] = scripts
+    run['connect'] = 1 if rng.chance(30) else 0
     run['faulty'] = faulty
     est = 40 * len(ops) + 50
     random_sched(rng, run, est)
@@ -390,6 +394,7 @@ def gen_c11_run(rng: Rng, mb, rid):
     if rng.chance(20):
         run['slowlog'] = rng.between(1, 3)
         faults.append('slow_log_sink')
+    run['connect'] = 1 if rng.chance(30) else 0
     run['fault_plan'] = faults
     total = sum(12 * op[2] if op[0] == 'Y' else 1 for t in tasks for op in t['ops'])
     random_sched(rng, run, 30 * total + 100)
